@@ -16,7 +16,7 @@ EXPLANATION = ("theorems: for every well-formed hierarchy and every history the 
                "re-defines the cpdef method with a plain def (documented restriction, refuted otherwise); pre-filter "
                "soundness under the same restriction; with the cache on, equality for histories that mutate only classes "
                "without subclasses, refuted in general (stale cache after a base-class mutation), and equality for all "
-               "histories for the repaired variant fx (type version invalidated for subclasses). partial: custom "
+               "histories for the repaired variant fx (result cached only for types whose bases are all immutable static types). partial: custom "
                "__getattribute__/__getattr__, metaclasses, data descriptors named m, __class__ assignment and "
                "multiple-inheritance MROs beyond one mixin are outside the model; the MRO is data of the hierarchy.")
 TRUSTED = ["CPython attribute lookup (PyObject_GenericGetAttr/_PyType_Lookup) modelled as MRO search + instance dict shadowing of non-data descriptors",
@@ -325,7 +325,7 @@ def classify(case, variant, opi):
 
 
 VARIANTS = [("default", None, "0"), ("dictver", ["CYTHON_USE_DICT_VERSIONS=1"], "1")]
-FX = os.environ.get("C27_FX", "0")      # set to "1" once the cache repair is applied (model variant fx)
+FX = os.environ.get("C27_FX", "0")      # default -> "1" once proposed_fixes/C27-stale_cache_base_class_mutation.diff is applied (model variant fx)
 
 
 def build_all(ctx, trees, tagname):
@@ -389,6 +389,9 @@ def run_cases(ctx, trees, cases, variants):
             # tie: compiled module vs extracted dispatch_cy
             if ",".join(cres) != mc.replace("INV", "TE"):
                 ctx.corr_break("override:run_cy(%s)" % v, inp, cres, mc)
+                with open(os.path.join(ctx.workdir, "corr_breaks.jsonl"), "a") as f:
+                    f.write(json.dumps({"variant": v, "hier": hier_text(case["classes"]), "ops": ops_text(case["ops"]),
+                                        "impl": cres, "model": mc, "oracle": ores}) + "\n")
             # property: compiled module vs the equivalent pure-Python hierarchy under CPython
             if cres != ores:
                 idx = call_ops(case)
